@@ -596,8 +596,12 @@ func (fr *frame) binop(i *ssa.BinOp, bc string, st *state) {
 		if isUnsigned(t) {
 			exact = app("div", x, y)
 			noWrap = true
-		} else {
+		} else if _, isConst := i.Y.(*ssa.Const); isConst {
 			exact = app("tdiv", x, y)
+		} else {
+			// variable divisor: an uninterpreted quotient plus its Euclidean property (non-linear `div` makes the solvers
+			// diverge; equal operands still give equal quotients by congruence, in code and in clauses alike)
+			exact = app("tdivv", x, y)
 		}
 		if _, isConst := i.Y.(*ssa.Const); !isConst {
 			// help the non-linear engines: Euclidean property of the quotient for non-negative operands
